@@ -112,3 +112,17 @@ package xrep
 //@
 //@ func (*socket).RemovePipe
 //@   may_close p.closeQ caller
+// ---- generated wake-on-close contracts (from `govc sites -select`) ----
+//@ func (*pipe).receiver
+//@   before select#1 assert selwaits(p.closeQ)
+//@
+//@ func (*pipe).sender
+//@   before select#1 assert selwaits(p.closeQ)
+//@
+//@ func (*socket).RecvMsg
+//@   before select#1 assert selwaits(s.closeQ)
+//@
+// ---- end generated wake-on-close contracts ----
+//@
+//@ func (*socket).SendMsg
+//@   before select#1 assert selwaits(p.closeQ) && selsends(p.sendQ)
